@@ -18,9 +18,9 @@ E == TraceLog[l]
 Punct == {"(", ")", ",", ":", "->", "?", "[", "]"}
 Wordy(s) == s \notin Punct
 SpaceOnly == {"", "sp", "sp2"}
-GapKinds == {"", "sp", "sp2", "tab", "lf", "crlf", "tc", "cl", "ec", "doc1", "doc2", "docblank", "endc", "doc1cr", "doc2cr", "tccr"}
+GapKinds == {"", "sp", "sp2", "tab", "lf", "crlf", "tc", "cl", "ec", "doc1", "doc2", "docblank", "endc", "doc1cr", "doc2cr", "tccr", "doc2blk", "docind"}
 HasWs(g) == g # ""
-Resets(g) == g \in {"lf", "crlf", "cl", "ec", "doc1", "doc2", "docblank", "endc", "doc1cr", "doc2cr"}    \* contains a line end outside a comment
+Resets(g) == g \in {"lf", "crlf", "cl", "ec", "doc1", "doc2", "docblank", "endc", "doc1cr", "doc2cr", "doc2blk", "docind"}    \* contains a line end outside a comment
 (* gap i+1 sits between toks[i] and toks[i+1]; gap 1 before the first token, the last after the last *)
 GapOK(toks, i, g) ==
   /\ g \in GapKinds
@@ -37,13 +37,18 @@ LayoutOK(toks, lay) == Len(lay) = Len(toks) + 1 /\ \A i \in 0..Len(toks) : GapOK
 (* documentation: the block of comment lines directly above; a blank line forgets it *)
 (* (the CR of a CRLF line end is layout: the driver reports documentation with CR before LF / at the end removed) *)
 TailDoc(g) == CASE g = "tc" -> "c" [] g = "cl" -> "c" [] g = "endc" -> "c" [] g = "doc1" -> "d1"
-                [] g = "doc2" -> "d1\nd2" [] g = "doc1cr" -> "d1" [] g = "doc2cr" -> "d1\nd2" [] g = "tccr" -> "c" [] OTHER -> ""
+                [] g = "doc2" -> "d1\nd2" [] g = "doc1cr" -> "d1" [] g = "doc2cr" -> "d1\nd2" [] g = "tccr" -> "c"
+                [] g = "doc2blk" -> "d1"          \* a block, a blank line, another block: only the last one is directly above
+                [] g = "docind" -> "d1\nd2"       \* comment lines indented with spaces / a tab
+                [] OTHER -> ""
 JoinDoc(a, b) == IF a = "" THEN b ELSE IF b = "" THEN a ELSE a \o "\n" \o b
 RECURSIVE DocAfter(_, _)
 DocAfter(lay, n) ==      \* the pending comment block after gaps 1..n
   IF n = 0 THEN "" ELSE LET g == lay[n] IN IF Resets(g) THEN TailDoc(g) ELSE JoinDoc(DocAfter(lay, n - 1), TailDoc(g))
 MemberKw == {"type", "method", "error"}
-KwPositions(toks) == {i \in 3..Len(toks) : toks[i].s \in MemberKw}
+(* member keywords stand outside every parenthesis (inside, "type" / "method" / "error" are ordinary field names) *)
+ParenDepth(toks, i) == Cardinality({j \in 1..(i - 1) : toks[j].s = "("}) - Cardinality({j \in 1..(i - 1) : toks[j].s = ")"})
+KwPositions(toks) == {i \in 3..Len(toks) : toks[i].s \in MemberKw /\ ParenDepth(toks, i) = 0}
 ExpDocs(toks, lay) ==    \* interface doc, then one per member in order: the block pending when the name is reached
   <<DocAfter(lay, 2)>> \o [k \in 1..Cardinality(KwPositions(toks)) |->
       LET p == CHOOSE q \in KwPositions(toks) : Cardinality({r \in KwPositions(toks) : r < q}) = k - 1 IN DocAfter(lay, p + 1)]
